@@ -10,7 +10,7 @@
      selection cards ks  the fresh-draw result for the contests ks (C07_selection (b))
      with_sizes ids ns   contests ids with sizes ns *)
 From SV Require Import Sampling Sampling_proofs.
-From SV Require NNM NNM_wf NNM_mono.
+From SV Require NNM NNM_wf NNM_mono NNM_mono_kaplan.
 From Coq Require Import Permutation Sorted.
 Open Scope Z_scope.
 
@@ -134,6 +134,31 @@ Theorem C10_p_monotone_betting : forall sqrtq, (forall x, (0 <= sqrtq x)%Q) -> f
   xle (fst (NNM.betting_mart sqrtq b N t u (xs ++ ys))) (fst (NNM.betting_mart sqrtq b N t u xs)) = true.
 Proof. exact NNM_mono.betting_pvalue_antitone. Qed.
 Print Assumptions C10_p_monotone_betting.
+
+(* the same for the other tests when the sample is declared to be in random order (overall value = smallest entry) *)
+Theorem C10_p_monotone_kaplan_wald : forall g t xs ys,
+  (0 < t)%Q -> (0 <= g <= 1)%Q -> xs <> [] -> Forall (fun x => (0 <= x)%Q) (xs ++ ys) ->
+  xle (fst (NNM.kaplan_wald g true t (xs ++ ys))) (fst (NNM.kaplan_wald g true t xs)) = true.
+Proof. exact NNM_mono_kaplan.kaplan_wald_pvalue_antitone. Qed.
+Print Assumptions C10_p_monotone_kaplan_wald.
+
+Theorem C10_p_monotone_kaplan_markov : forall g t xs ys,
+  (0 < t)%Q -> (0 <= g)%Q -> xs <> [] -> Forall (fun x => (0 <= x)%Q) (xs ++ ys) ->
+  xle (fst (NNM.kaplan_markov g true t (xs ++ ys))) (fst (NNM.kaplan_markov g true t xs)) = true.
+Proof. exact NNM_mono_kaplan.kaplan_markov_pvalue_antitone. Qed.
+Print Assumptions C10_p_monotone_kaplan_markov.
+
+Theorem C10_p_monotone_kaplan_kolmogorov : forall g n t xs ys,
+  (0 <= g)%Q -> xs <> [] -> Forall (fun x => (0 <= x)%Q) (xs ++ ys) -> (Z.of_nat (length (xs ++ ys)) <= n)%Z ->
+  xle (fst (NNM.kaplan_kolmogorov g true n t (xs ++ ys))) (fst (NNM.kaplan_kolmogorov g true n t xs)) = true.
+Proof. exact NNM_mono_kaplan.kaplan_kolmogorov_pvalue_antitone. Qed.
+Print Assumptions C10_p_monotone_kaplan_kolmogorov.
+
+Theorem C10_p_monotone_sprt : forall sqrtq eta N t u xs ys,
+  (0 < u)%Q -> (0 < t < u)%Q -> NNM_wf.sample_ok N u xs -> NNM_wf.sample_ok N u (xs ++ ys) ->
+  xle (fst (NNM.wald_sprt sqrtq eta true N t u (xs ++ ys))) (fst (NNM.wald_sprt sqrtq eta true N t u xs)) = true.
+Proof. exact NNM_mono_kaplan.sprt_pvalue_antitone. Qed.
+Print Assumptions C10_p_monotone_sprt.
 
 (* hence a confirmation at risk limit alpha survives any extension of the sample *)
 Theorem C10_confirmed_stays_confirmed : forall sqrtq e N t u xs ys alpha,
